@@ -103,6 +103,9 @@ class Mon:
             # routing bits): none of them may open a way out of User mode other than an architectural exception
             r.scr.value = (r.scr.value & 1) | (rng.getrandbits(9) << 1)
             desc['scr'] = '%#x' % r.scr.value
+        if rng.random() < 0.3:
+            r.sctlr.nmfi = 1              # non-maskable FIQs configured: "F can be cleared but never set" - by privileged code
+            desc['nmfi'] = 1
         desc['v'] = r.sctlr.v
         return ctx, desc, ns
 
